@@ -33,6 +33,24 @@ def protect_rule(index, rep, rid, modules, floor):
                   "%s escapes labels with the protect class %r, which lacks %s: the NEXUS/Newick tokenizer treats these as delimiters / quote / comment start, so a label containing one is written unquoted and re-read as several tokens"
                   % (fi.qualname, pat, ", ".join(repr(m) for m in missing)))
     rep.floor(rid, "escape_nexus_token call sites", floor, n)
+    # one label, one rendering: the writer classes pass the same quoting options at every site, so a taxon label
+    # is spelled the same in TAXLABELS, TRANSLATE, the tree statements and the MATRIX rows
+    opts = {}
+    for fi, call, pat, is_default in sites:
+        if fi.cls is None or not fi.cls.name.endswith("Writer"):
+            continue
+        sig = tuple((k, norm(get_kwarg(call, k)) if get_kwarg(call, k) is not None else "<default>") for k in ("preserve_spaces", "quote_underscores"))
+        opts.setdefault(sig, []).append((fi, call))
+    if opts:
+        major = max(opts, key=lambda k: len(opts[k]))
+        for sig, where in sorted(opts.items()):
+            for fi, call in where:
+                if fi.module.name not in modules:
+                    continue
+                rep.check(sig == major, rid, fi.qualname, "escape options differ from the other writer sites: %s" % ", ".join("%s=%s" % kv for kv in sig), fn_where(fi, call),
+                          "%s: escape options %s agree with the other %d writer sites" % (fi.name, ", ".join("%s=%s" % kv for kv in sig), len(opts[major]) - 1),
+                          "%s escapes a label with (%s) while the other %d NEXUS/Newick writer sites use (%s): under a non-default writer option the same taxon label is spelled differently in different statements of one file (e.g. bare `A_b` in TAXLABELS, quoted `'A_b'` in MATRIX), so on re-reading the rows/leaves no longer match the declared taxa"
+                          % (fi.qualname, ", ".join("%s=%s" % kv for kv in sig), len(opts[major]), ", ".join("%s=%s" % kv for kv in major)))
     return cfgd
 
 
